@@ -386,6 +386,11 @@ func (ex *Exec) assignTo(st *State, lhs ast.Expr, v Val, k func(*State)) {
 		xt := ex.typeOf(l.X)
 		switch u := under(xt).(type) {
 		case *types.Map:
+			if id, ok := unparen(l.X).(*ast.Ident); ok {
+				if obj, ok := ex.info.Uses[id].(*types.Var); ok && ex.aliasMapVars[obj] {
+					ex.oof(l.Pos(), "write through map variable %s that may alias another map (it was read out of a map/field or copied); aliasing of maps is not modelled", id.Name)
+				}
+			}
 			ex.eval(st, l.X, func(st2 *State, m Val) {
 				ex.eval(st2, l.Index, func(st3 *State, key Val) {
 					key = ex.convert(st3, key, u.Key())
